@@ -1,6 +1,7 @@
 import OnlVerif.Lemmas.SchedRR
 import OnlVerif.Lemmas.SchedWRR
 import OnlVerif.Lemmas.SchedDRRProps
+import OnlVerif.Lemmas.GenDrr
 /-!
 # C15 — round-robin schedulers give each backlogged class its per-visit allowance
 
@@ -245,6 +246,59 @@ theorem drr_fair (cfg : DRR.Cfg ℚ) (hc : DRR.CfgOk cfg) (L : ℚ) (hL : 0 < L)
     (range s1 hg1 a da1 Qa hda1 hqa) (range s2 hg2 a da2 Qa hda2 hqa)
     (range s1 hg1 b db1 Qb hdb1 hqb) (range s2 hg2 b db2 Qb hdb2 hqb)
     (pendR s1 hg1 a) (pendR s2 hg2 a) (pendR s1 hg1 b) (pendR s2 hg2 b)
+
+/-! ### The DRR source, re-translated on every run, *is* the model (bridge theorem)
+
+`Generated/Drr.lean` is rewritten by `py2lean` from the current `onl/scheduler/drr.py` before this file is compiled.  The
+fragments are seen from one class: `GenDrr.drrObj d q n …` is the object whose entries for that class are credit `d`,
+quantum `q`, `class_count` `n`. -/
+
+/-- **The DRR arithmetic as written in the source is the model's**: for a class `cls` with weight `w`, credit `d`, quantum
+`q`, count `n`:
+* the quantum computed in `__init__` (`MIN_QUANTUM * weight / min_weight`, zero credit and counts) is `DRR.quantum`;
+* the first statement of a visit leaves the credit `DRR.addQuantum` leaves when the class is backlogged, and `d` otherwise;
+* the inner `while` test and the send test are the propositions `DRR.micro` and `DRR.onPkt` branch on
+  (`0 < d ∧ 0 < n`, `size ≤ d`);
+* the statements after a transmission leave the `class_count` and credit that `DRR.book` leaves (`n − 1`; `0` if the class
+  emptied, else `d − size`);
+* `put` leaves the `class_count` that `DRR.onPut` leaves, wakes the loop iff nothing was queued, and stores the packet.
+(`MIN_QUANTUM` changed, `/ min_weight` dropped, `>`/`>=` flipped in a guard, `deficit -= size` lost … make this fail.) -/
+theorem drr_generated_eq_model (cfg : DRR.Cfg ℚ) (k : DRR.Ctl ℚ) (cls w : Nat) (n qc total : Int) (d q : ℚ) (p : MPkt)
+    (e1 e2 e3 : Nat) :
+    (lookup cfg.weights cls = some w →
+      DRR.quantum cfg cls =
+        some (Gen.DRR.init_class (GenDrr.drrObj d q n qc e1 e2 e3) w (DRR.minWeight cfg.weights)).quantum ∧
+      Gen.DRR.init_class (GenDrr.drrObj d q n qc e1 e2 e3) w (DRR.minWeight cfg.weights) =
+        GenDrr.drrObj 0 (DRR.quantumW cfg w) 0 0 e1 e2 e3) ∧
+    (0 < n → lookup (DRR.addQuantum k cls d q).deficit cls =
+      some (Gen.DRR.run_visit (GenDrr.drrObj d q n qc e1 e2 e3) n).deficit) ∧
+    (¬ 0 < n → Gen.DRR.run_visit (GenDrr.drrObj d q n qc e1 e2 e3) n = GenDrr.drrObj d q n qc e1 e2 e3) ∧
+    Gen.DRR.run_inner_guard (GenDrr.drrObj d q n qc e1 e2 e3) = decide ((Num.zero : ℚ) < d ∧ 0 < n) ∧
+    Gen.DRR.run_send_guard (GenDrr.drrObj d q n qc e1 e2 e3) p.size = decide ((Num.ofNat p.size : ℚ) ≤ d) ∧
+    lookup (DRR.book k cls d n p).classCount cls = some (Gen.DRR.run_book (GenDrr.drrObj d q n qc e1 e2 e3) p.size).class_count ∧
+    lookup (DRR.book k cls d n p).deficit cls = some (Gen.DRR.run_book (GenDrr.drrObj d q n qc e1 e2 e3) p.size).deficit ∧
+    (lookup k.classCount cls = some n →
+      ∃ k', DRR.onPut k cls p = .ok k' ∧
+        lookup k'.classCount cls = some (Gen.DRR.put (GenDrr.drrObj d q n qc e1 e2 e3) total).class_count ∧
+        Gen.DRR.put (GenDrr.drrObj d q n qc e1 e2 e3) total =
+          GenDrr.drrObj d q (n + 1) qc (e1 + if total = 0 then 1 else 0) (e2 + 1) (e3 + 1)) := by
+  refine ⟨fun hw => ⟨?_, GenDrr.init_class_eq cfg w d q n qc e1 e2 e3⟩, fun hn => ?_, fun hn => ?_,
+    GenDrr.run_inner_guard_eq d q n qc e1 e2 e3, GenDrr.run_send_guard_eq d q n qc e1 e2 e3 p, ?_, ?_, fun hk => ?_⟩
+  · rw [GenDrr.init_class_eq]; simp only [DRR.quantum, hw, Option.map_some]; rfl
+  · rw [GenDrr.run_visit_eq, if_pos hn]; simp only [DRR.addQuantum, lookup_setKey_same]; rfl
+  · rw [GenDrr.run_visit_eq, if_neg hn]
+  · rw [GenDrr.run_book_eq, DRR.book_classCount, lookup_setKey_same]; rfl
+  · rw [GenDrr.run_book_eq, DRR.book_deficit, lookup_setKey_same]; rfl
+  · refine ⟨_, by simp only [DRR.onPut, hk]; rfl, ?_, GenDrr.put_eq d q n qc total e1 e2 e3⟩
+    rw [GenDrr.put_eq]; simp only [lookup_setKey_same]; rfl
+
+/-- the translated fragments on a concrete class: weights 1 and 3, the class of weight 3 gets quantum 4500; a visit with credit
+100 adds it; a 1500-byte packet is affordable; booking it with one packet counted zeroes the credit -/
+example : (Gen.DRR.init_class (GenDrr.drrObj 7 7 7 7 0 0 0) 3 (DRR.minWeight [(0, 1), (1, 3)])).quantum = (4500 : ℚ) ∧
+    (Gen.DRR.run_visit (GenDrr.drrObj 100 4500 2 2 0 0 0) 2).deficit = (4600 : ℚ) ∧
+    Gen.DRR.run_send_guard (GenDrr.drrObj 4600 4500 2 2 0 0 0) 1500 = true ∧
+    (Gen.DRR.run_book (GenDrr.drrObj 4600 4500 1 1 0 0 0) 1500).deficit = (0 : ℚ) := by
+  decide +kernel
 
 /-! ### non-vacuity -/
 
